@@ -287,3 +287,363 @@ def E3(b):
                               type='MODIFIED', event={})
     b.case(key='adj-watching')
     b.check('adjust_cause_frame', mk_handler(('a',)).adjust_cause(wc) is wc, lambda: 'watching cause not passed through')
+
+
+# =========================================================================== E1
+PREFIXES = ('kopf.zalando.org', 'my-op.example.com', 'kopf.dev')
+PROGRESS_KINDS = ('annotations', 'status', 'smart', 'multi')
+DIFFBASE_KINDS = ('annotations', 'status', 'multi')
+FINALIZER = 'kopf.zalando.org/KopfFinalizerMarker'
+HANDLER_IDS = ('fn', 'fn/spec.x', 'outer/inner_sub', 'a' * 70)      # plain, field-suffixed, sub-handler, hashed (> 63)
+RECORDS = (
+    dict(started='2020-01-01T00:00:00.000001', stopped=None, delayed='2020-01-01T00:01:00', purpose='create',
+         retries=1, success=False, failure=False, message='ü∂ "quoted"\nline', subrefs=None),
+    dict(started='2020-01-01T00:00:00', stopped='2020-01-01T00:00:01', delayed=None, purpose='update',
+         retries=3, success=True, failure=False, message=None, subrefs=['fn/a', 'fn/b']),
+)
+
+
+@dataclasses.dataclass(frozen=True)
+class Cfg:
+    pk: str
+    dk: str
+    prefix: str
+    v1: bool
+    progress: object = dataclasses.field(compare=False, repr=False, default=None)
+    diffbase: object = dataclasses.field(compare=False, repr=False, default=None)
+
+    @property
+    def name(self):
+        return f'progress={self.pk},diffbase={self.dk},prefix={self.prefix},v1={self.v1}'
+
+    @property
+    def annotation_prefixes(self):
+        """Prefixes under which this configuration writes annotations."""
+        return {self.prefix} if (self.pk != 'status' or self.dk != 'status') else set()
+
+
+def make_config(pk, dk, prefix, v1):
+    """One supported storage configuration, built from the real classes exactly as an operator's
+    `settings.persistence.*_storage = ...` would (docs/configuration.rst)."""
+    from kopf._cogs.configs import diffbase, progress
+    p = {'annotations': lambda: progress.AnnotationsProgressStorage(prefix=prefix, v1=v1),
+         'status': lambda: progress.StatusProgressStorage(),
+         'smart': lambda: progress.SmartProgressStorage(prefix=prefix, v1=v1),
+         'multi': lambda: progress.MultiProgressStorage([progress.AnnotationsProgressStorage(prefix=prefix, v1=v1),
+                                                         progress.StatusProgressStorage()])}[pk]()
+    d = {'annotations': lambda: diffbase.AnnotationsDiffBaseStorage(prefix=prefix, v1=v1),
+         'status': lambda: diffbase.StatusDiffBaseStorage(),
+         'multi': lambda: diffbase.MultiDiffBaseStorage([diffbase.AnnotationsDiffBaseStorage(prefix=prefix, v1=v1),
+                                                         diffbase.StatusDiffBaseStorage()])}[dk]()
+    return Cfg(pk, dk, prefix, v1, p, d)
+
+
+def all_configs():
+    return [make_config(pk, dk, prefix, v1) for pk in PROGRESS_KINDS for dk in DIFFBASE_KINDS
+            for prefix in PREFIXES for v1 in (True, False)]
+
+
+def essence_of(cfg, body, extra_fields=()):
+    """essence_cfg(b) = progress_storage.clear(diffbase_storage.build(b, extra_fields)) -- the composition
+    formed by processing._detect_causes (obligation H5)."""
+    from kopf._cogs.structs import bodies
+    built = cfg.diffbase.build(body=bodies.Body(body), extra_fields=list(extra_fields))
+    return cfg.progress.clear(essence=built)
+
+
+def same(e1, e2):
+    """`≅` on essences (see E3): the change detector sees no difference."""
+    return _plain_eq(norm(e1), norm(e2))
+
+
+def storage_writes(cfg, body, extra_fields=()):
+    """Every patch the storage code of `cfg` itself produces against `body` (one fresh Patch each, plus
+    one combined patch as a handling cycle forms it).  Returns [(label, merge-patch dict)]."""
+    from kopf._cogs.structs import bodies, patches
+    view = bodies.Body(body)
+    out = []
+
+    def emit(label, fn):
+        patch = patches.Patch()
+        fn(patch)
+        out.append((label, json.loads(json.dumps(dict(patch)))))     # what goes over the wire
+    for n, hid in enumerate(HANDLER_IDS):
+        rec = dict(RECORDS[n % len(RECORDS)])
+        emit(f'progress.store({hid[:20]})', lambda p: cfg.progress.store(key=hid, record=rec, body=view, patch=p))
+        emit(f'progress.purge({hid[:20]})', lambda p: cfg.progress.purge(key=hid, body=view, patch=p))
+    emit('progress.touch(value)', lambda p: cfg.progress.touch(body=view, patch=p, value='2020-01-01T00:00:00'))
+    emit('progress.touch(None)', lambda p: cfg.progress.touch(body=view, patch=p, value=None))
+    ess = essence_of(cfg, body, extra_fields)
+    emit('diffbase.store(essence)', lambda p: cfg.diffbase.store(body=view, patch=p, essence=ess))
+    emit('diffbase.store(other)', lambda p: cfg.diffbase.store(body=view, patch=p, essence={'spec': {'zzz': [1, 'ü']}}))
+    for st in _annotation_storages(cfg):
+        emit('_store_marker', lambda p: st._store_marker(prefix=st.prefix, patch=p, body=view))
+
+    def cycle(p):
+        cfg.progress.store(key='fn', record=dict(RECORDS[0]), body=view, patch=p)
+        cfg.progress.store(key='fn/spec.x', record=dict(RECORDS[1]), body=view, patch=p)
+        cfg.progress.purge(key='outer/inner_sub', body=view, patch=p)
+        cfg.progress.touch(body=view, patch=p, value='2020-01-01T00:00:09')
+        cfg.diffbase.store(body=view, patch=p, essence=ess)
+        p.status['fn'] = {'result': 'done'}
+    emit('whole-cycle', cycle)
+    return out
+
+
+def _annotation_storages(cfg):
+    from kopf._cogs.configs import conventions
+    found = []
+    for s in (cfg.progress, cfg.diffbase):
+        for x in [s] + list(getattr(s, 'storages', [])):
+            if isinstance(x, conventions.StorageKeyMarkingConvention) and hasattr(x, 'prefix'):
+                found.append(x)
+    return found
+
+
+def system_writes(body):
+    """Writes of the framework outside the storages and of the API server: finalizer, status stanza,
+    system metadata.  Returns [(label, new body)]."""
+    from kopf._cogs.structs import finalizers
+    out = []
+    for label, fn, fin in [('finalizers.block_deletion', finalizers.block_deletion, FINALIZER),
+                           ('finalizers.allow_deletion', finalizers.allow_deletion, FINALIZER),
+                           ('block_deletion(foreign)', finalizers.block_deletion, 'example.com/other-finalizer')]:
+        b2 = copy.deepcopy(body)
+        fn(b2, fin)
+        out.append((label, b2))
+    for label, patch in [
+        ('status.fn=result', {'status': {'fn': {'message': 'ok', 'n': 1}}}),
+        ('status=null', {'status': None}),
+        ('status.kopf=null', {'status': {'kopf': None}}),
+        ('status.kopf.progress+dummy', {'status': {'kopf': {'progress': {'fn': dict(RECORDS[0])}, 'dummy': 'now'}}}),
+        ('status.conditions', {'status': {'conditions': [{'type': 'Ready', 'status': 'True'}], 'observedGeneration': 7}}),
+        ('metadata.resourceVersion', {'metadata': {'resourceVersion': '999'}}),
+        ('metadata.generation', {'metadata': {'generation': 42}}),
+        ('metadata.managedFields', {'metadata': {'managedFields': [{'manager': 'kopf', 'operation': 'Update',
+                                                                 'fieldsV1': {'f:metadata': {'f:annotations': {}}}}]}}),
+        ('metadata.uid', {'metadata': {'uid': 'uid-2'}}),
+        ('metadata.creationTimestamp', {'metadata': {'creationTimestamp': '2021-01-01T00:00:00Z'}}),
+        ('metadata.deletionTimestamp', {'metadata': {'deletionTimestamp': '2021-01-01T00:00:00Z', 'deletionGracePeriodSeconds': 0}}),
+        ('metadata.selfLink', {'metadata': {'selfLink': '/apis/x/y'}}),
+        ('metadata.ownerReferences', {'metadata': {'ownerReferences': [{'kind': 'Deployment', 'name': 'd', 'uid': 'u'}]}}),
+        ('metadata.finalizers', {'metadata': {'finalizers': ['a', 'b']}}),
+        ('metadata.generateName', {'metadata': {'generateName': 'x-'}}),
+        ('metadata.system-removed', {'metadata': {'resourceVersion': None, 'generation': None, 'uid': None,
+                                                  'managedFields': None, 'creationTimestamp': None}}),
+    ]:
+        out.append((label, apply_merge_patch(body, patch)))
+    return out
+
+
+SPECS = (ABS, {}, {'x': 1}, {'x': {'y': None, 'z': [0]}, 'w': 'ü'}, {'x': 'a', 'y': 'b'}, {'x': [], 'y': {}})
+STATUSES = (ABS, {}, {'kopf': {'progress': {'fn': dict(RECORDS[0])}, 'dummy': 'then'}}, {'observed': 1, 'fn': {'message': 'ok'}})
+LABELS = (ABS, {}, {'app': 'demo'})
+DATAS = (ABS, {'k': 'v'})
+SYSMETA = ({'name': 'obj'},
+           {'name': 'obj', 'namespace': 'ns', 'uid': 'uid-1', 'resourceVersion': '100', 'generation': 3,
+            'creationTimestamp': '2020-01-01T00:00:00Z', 'finalizers': [FINALIZER],
+            'managedFields': [{'manager': 'kubectl'}]})
+EXTRAS = ((), (('spec', 'x'),), (('status', 'observed'),))
+ANNOTATION_KINDS = ('user', 'bare', 'kubectl', 'empty', 'own-progress', 'own-diffbase', 'other-operator')
+USER_ANNOTATIONS = {'user': ('example.com/note', 'x'), 'bare': ('note', 'y'), 'empty': ('example.com/empty', ''),
+                    'kubectl': ('kubectl.kubernetes.io/last-applied-configuration', '{"spec":{}}\n')}
+
+
+def base_body(spec, status, labels, data, sysmeta):
+    body = {'apiVersion': 'example.com/v1', 'kind': 'KopfExample', 'metadata': copy.deepcopy(sysmeta)}
+    for key, val in (('spec', spec), ('status', status), ('data', data)):
+        if val is not ABS:
+            body[key] = copy.deepcopy(val)
+    if labels is not ABS:
+        body['metadata']['labels'] = copy.deepcopy(labels)
+    return body
+
+
+def with_annotations(body, kinds, cfg, other):
+    """Add annotations of the given kinds.  Operator-made ones are produced BY THE REAL STORAGE CODE of `cfg`
+    (own) / `other` (another Kopf-based operator), so every body is a state those operators can reach."""
+    from kopf._cogs.structs import bodies, patches
+    for kind in kinds:
+        if kind in USER_ANNOTATIONS:
+            k, v = USER_ANNOTATIONS[kind]
+            body = apply_merge_patch(body, {'metadata': {'annotations': {k: v}}})
+            continue
+        patch = patches.Patch()
+        view = bodies.Body(body)
+        if kind == 'own-progress':
+            cfg.progress.store(key='fn', record=dict(RECORDS[1]), body=view, patch=patch)
+            cfg.progress.store(key='outer/inner_sub', record=dict(RECORDS[0]), body=view, patch=patch)
+            cfg.progress.touch(body=view, patch=patch, value='2019-12-31T23:59:59')
+        elif kind == 'own-diffbase':
+            cfg.diffbase.store(body=view, patch=patch, essence={'spec': {'x': 0}})
+        elif kind == 'other-operator':
+            other.progress.store(key='fn', record=dict(RECORDS[0]), body=view, patch=patch)
+            other.diffbase.store(body=view, patch=patch, essence={'spec': {'x': 0}})
+        body = apply_merge_patch(body, json.loads(json.dumps(dict(patch))))
+    return body
+
+
+def essential_changes(body, cfg_prefixes, extra_fields):
+    """Changes that the property says DO count: a leaf under spec, another top-level payload field, a label,
+    an annotation outside the operators' prefixes -- each to a value that is not `≅` to the previous one.
+    Returns [(label, new body)]."""
+    out = []
+    spec = body.get('spec')
+    out.append(('spec.new-leaf', apply_merge_patch(body, {'spec': {'added': 'v'}})))
+    out.append(('spec.x-changed', apply_merge_patch(body, {'spec': {'x': 'changed!'}})))
+    if isinstance(spec, dict):
+        for k, v in spec.items():
+            if v is not None:
+                out.append((f'spec.{k}-removed', apply_merge_patch(body, {'spec': {k: None}})))
+            if isinstance(v, dict):
+                out.append((f'spec.{k}.deep-leaf', apply_merge_patch(body, {'spec': {k: {'deep': 0}}})))
+    out.append(('spec-replaced', {**copy.deepcopy(body), 'spec': 'scalar'}))
+    out.append(('data.k-changed', apply_merge_patch(body, {'data': {'k': 'other'}})))
+    out.append(('toplevel-added', apply_merge_patch(body, {'rules': [{'verbs': ['get']}]})))
+    if 'data' in body:
+        out.append(('data-removed', apply_merge_patch(body, {'data': None})))
+    labels = body['metadata'].get('labels') or {}
+    out.append(('label-added', apply_merge_patch(body, {'metadata': {'labels': {'tier': 'db'}}})))
+    for k in labels:
+        out.append(('label-changed', apply_merge_patch(body, {'metadata': {'labels': {k: 'other'}}})))
+        out.append(('label-removed', apply_merge_patch(body, {'metadata': {'labels': {k: None}}})))
+    annotations = body['metadata'].get('annotations') or {}
+    out.append(('annotation-added', apply_merge_patch(body, {'metadata': {'annotations': {'example.com/added': 'v'}}})))
+    out.append(('bare-annotation-added', apply_merge_patch(body, {'metadata': {'annotations': {'plain': ''}}})))
+    for kind in ('user', 'bare', 'empty'):
+        k, v = USER_ANNOTATIONS[kind]
+        if k in annotations:
+            out.append((f'annotation-changed({kind})', apply_merge_patch(body, {'metadata': {'annotations': {k: v + '!'}}})))
+            out.append((f'annotation-removed({kind})', apply_merge_patch(body, {'metadata': {'annotations': {k: None}}})))
+    for path in extra_fields:
+        if path[0] == 'status':
+            out.append(('extra-field-changed', apply_merge_patch(body, {'status': {path[1]: 'changed!'}})))
+    return out
+
+
+def _passes_non_mapping(body, path):
+    """The path meets a present value that is not a mapping before its last step."""
+    d = body
+    for key in path[:-1]:
+        if not isinstance(d, dict) or key not in d:
+            return False
+        d = d[key]
+        if not isinstance(d, dict):
+            return True
+    return False
+
+
+def _e1_bodies(b, cfg, other):
+    """The body universe for one (cfg, other-operator) pair: exhaustive product in the thorough tier; in the quick
+    tier every annotation subset is enumerated while the remaining dimensions rotate (each value of each
+    dimension occurs with each annotation kind)."""
+    max_kinds = 3 if b.thorough else 2
+    subsets = [c for n in range(max_kinds + 1) for c in itertools.combinations(ANNOTATION_KINDS, n)]
+    if b.thorough:
+        for spec, status, labels, data, sysmeta in itertools.product(SPECS, STATUSES, LABELS, DATAS, SYSMETA):
+            for kinds in subsets:
+                yield with_annotations(base_body(spec, status, labels, data, sysmeta), kinds, cfg, other), kinds
+    else:
+        for i, kinds in enumerate(subsets):
+            for r in range(2):
+                j = 2 * i + r
+                base = base_body(SPECS[j % len(SPECS)], STATUSES[(j // 2) % len(STATUSES)], LABELS[j % len(LABELS)],
+                                 DATAS[(j // 3) % len(DATAS)], SYSMETA[(j + r) % len(SYSMETA)])
+                yield with_annotations(base, kinds, cfg, other), kinds
+
+
+@bounded('E1', targets=['kopf._cogs.configs.diffbase.DiffBaseStorage.build', 'kopf._cogs.configs.diffbase.AnnotationsDiffBaseStorage.build',
+                        'kopf._cogs.configs.diffbase.StatusDiffBaseStorage.build', 'kopf._cogs.configs.diffbase.MultiDiffBaseStorage.build',
+                        'kopf._cogs.configs.progress.AnnotationsProgressStorage.clear', 'kopf._cogs.configs.progress.StatusProgressStorage.clear',
+                        'kopf._cogs.configs.progress.MultiProgressStorage.clear'],
+         props=['C04', 'C03'],
+         clauses=['own_storage_writes_invisible', 'system_writes_invisible', 'other_operator_writes_invisible',
+                  'stored_essence_is_fixpoint', 'everything_else_counts', 'pure'],
+         universe='72 configurations {Annotations,Status,Smart,Multi progress} x {Annotations,Status,Multi diff-base} x prefixes '
+                  '{kopf.zalando.org,my-op.example.com,kopf.dev} x v1 {T,F}; other operator: 4 storage combinations x the 2 other prefixes; '
+                  'bodies: 6 spec shapes x 4 status shapes x 3 label shapes x 2 data x 2 system-metadata shapes x subsets (<=2 quick, <=3 thorough) '
+                  'of 7 annotation kinds (operator-made ones produced by the real storage code); extra_fields in {(), spec.x, status.observed}; '
+                  'writes: progress store/purge (4 ids) / touch (2), diffbase store (2), marker, one whole-cycle patch, 3 finalizer edits, '
+                  '5 status edits, 11 system-metadata edits; ~25 essential edits per body')
+def E1(b):
+    """
+    essence_cfg(body) = progress_storage.clear(diffbase_storage.build(body, extra_fields)) is what the change detector
+    compares (`≅`: E3's reading).  Property C04, first sentence:
+      own_storage_writes_invisible   for every patch w the configuration's own storage code produces against the body
+                                     (progress store/purge/touch, diff-base store, marker, a whole cycle's patch):
+                                     essence_cfg(merge(body, w)) ≅ essence_cfg(body)           [merge: RFC 7386, this file]
+      system_writes_invisible        the same for the finalizer edits, any change under `status` (outside extra_fields)
+                                     and any change of system metadata
+      other_operator_writes_invisible the same for patches produced by a SECOND Kopf-based operator's storages (other
+                                     prefix, any storage classes): no ping-pong.   Known finding F-C04-1: an operator whose
+                                     prefix starts with `kopf.` but is not (a subdomain of) kopf.zalando.org stores no
+                                     marker and is not recognised.
+      stored_essence_is_fixpoint     after diffbase.store(essence_cfg(body)) is applied, the next event sees old ≅ new:
+                                     clear(fetch(body')) ≅ essence_cfg(body')
+      everything_else_counts         a changed/added/removed leaf under spec, other top-level payload field, label, or
+                                     annotation outside the operators' prefixes (and an extra field) changes essence_cfg
+      pure                           build/clear do not mutate the body
+    Bounded stand-in (labelled B): build/clear are compositions of deepcopy, recursive dicts.cherrypick/remove and
+    string-prefix scans over arbitrary JSON; the non-recursive helpers are contracted separately (E2).
+    """
+    from kopf._cogs.structs import bodies
+    F1 = 'F-C04-1'
+    F3 = 'F-C04-3'      # build() raises TypeError when an extra field's path runs through a non-mapping value
+    configs = all_configs()
+    by_key = {(c.pk, c.dk, c.prefix, c.v1): c for c in configs}
+    other_kinds = (('annotations', 'annotations'), ('smart', 'annotations'), ('status', 'status'), ('multi', 'multi'))
+    if not b.thorough:
+        b.sampled('quick tier: annotation subsets of size <= 2 with the other body dimensions rotating; '
+                  'extra_fields rotate per body; thorough tier: full product')
+    for ci, cfg in enumerate(configs):
+        others = [by_key[(pk, dk, p, cfg.v1)] for p in PREFIXES if p != cfg.prefix for pk, dk in other_kinds]
+        primary_other = others[ci % len(others)]      # produces the pre-existing "other operator" annotations
+        for bi, (body, kinds) in enumerate(_e1_bodies(b, cfg, primary_other)):
+            extras_list = EXTRAS if b.thorough else (EXTRAS[(bi + ci) % len(EXTRAS)],)
+            for extra in extras_list:
+                frozen = json.dumps(body, sort_keys=True)
+                e0 = essence_of(cfg, body, extra)
+                ctx = dict(config=cfg.name, extra_fields=[list(x) for x in extra])
+
+                def invisible(clause, label, body2, excuse=None, who=None):
+                    b.case(key=None, nontrivial=body2 != body)
+                    e1 = essence_of(cfg, body2, extra)
+                    b.check(clause, same(e0, e1),
+                            lambda: dict(ctx, write=label, by=who, body=body, after=body2, essence_before=e0, essence_after=e1),
+                            excuse=excuse)
+                # -- own storage writes
+                for label, patch in storage_writes(cfg, body, extra):
+                    invisible('own_storage_writes_invisible', label, apply_merge_patch(body, patch), who=cfg.name)
+                # -- framework/system writes
+                for label, body2 in system_writes(body):
+                    invisible('system_writes_invisible', label, body2)
+                # -- another Kopf-based operator's writes
+                for oth in (others if b.thorough or bi % 4 == 0 else [primary_other]):
+                    unmarked = oth.prefix.startswith('kopf.') and oth.prefix != 'kopf.zalando.org' and bool(oth.annotation_prefixes)
+                    for label, patch in storage_writes(oth, body, ()):
+                        invisible('other_operator_writes_invisible', label, apply_merge_patch(body, patch),
+                                  excuse=F1 if unmarked else None, who=oth.name)
+                # -- the stored essence is a fixpoint of the detector
+                from kopf._cogs.structs import patches
+                patch = patches.Patch()
+                cfg.diffbase.store(body=bodies.Body(body), patch=patch, essence=e0)
+                body2 = apply_merge_patch(body, json.loads(json.dumps(dict(patch))))
+                fetched = cfg.diffbase.fetch(body=bodies.Body(body2))
+                old = cfg.progress.clear(essence=fetched) if fetched is not None else None
+                new = essence_of(cfg, body2, extra)
+                b.case(key=None)
+                b.check('stored_essence_is_fixpoint', old is not None and same(old, new),
+                        lambda: dict(ctx, body=body, after_store=body2, old=old, new=new))
+                # -- everything else counts
+                for label, body2 in essential_changes(body, cfg.annotation_prefixes, extra):
+                    b.case(key=None)
+                    try:
+                        e1 = essence_of(cfg, body2, extra)
+                        counted, error = not same(e0, e1), None
+                    except Exception as e:      # the detector crashes instead of reporting the change
+                        counted, error = False, f'{type(e).__name__}: {e}'
+                    through_scalar = any(_passes_non_mapping(body2, path) for path in extra)
+                    b.check('everything_else_counts', counted,
+                            lambda: dict(ctx, change=label, body=body, after=body2, essence=e0, raised=error),
+                            excuse=F3 if error and error.startswith('TypeError') and through_scalar else None)
+                b.check('pure', json.dumps(body, sort_keys=True) == frozen, lambda: dict(ctx, body=body))
